@@ -1,0 +1,44 @@
+//go:build verif
+
+// Verification hooks (build tag "verif" only): thin exported wrappers around the
+// unexported replication handlers so that an external harness can drive the real
+// importer code with real pbpeerstream messages. Add-only; no behaviour of its own.
+
+package peerstream
+
+import (
+	"github.com/hashicorp/consul/agent/structs"
+	"github.com/hashicorp/consul/proto/private/pbpeerstream"
+)
+
+// VerifProcessResponse calls (*Server).processResponse: URL/nonce validation, Any
+// decoding, handleUpsert and the handler selected by the resource URL.
+func (s *Server) VerifProcessResponse(
+	peerName string,
+	partition string,
+	mutableStatus *MutableStatus,
+	resp *pbpeerstream.ReplicationMessage_Response,
+) (*pbpeerstream.ReplicationMessage, error) {
+	return s.processResponse(peerName, partition, mutableStatus, resp)
+}
+
+// VerifHandleUpdateService calls (*Server).handleUpdateService. A nil export is the
+// deletion form used by handleUpsertExportedServiceList.
+func (s *Server) VerifHandleUpdateService(
+	peerName string,
+	partition string,
+	sn structs.ServiceName,
+	export *pbpeerstream.ExportedService,
+) error {
+	return s.handleUpdateService(peerName, partition, sn, export)
+}
+
+// VerifHandleExportedServiceList calls (*Server).handleUpsertExportedServiceList.
+func (s *Server) VerifHandleExportedServiceList(
+	mutableStatus *MutableStatus,
+	peerName string,
+	partition string,
+	export *pbpeerstream.ExportedServiceList,
+) error {
+	return s.handleUpsertExportedServiceList(mutableStatus, peerName, partition, export)
+}
